@@ -1856,7 +1856,14 @@ def ctor_facts():
     m = re.search(r"#\[derive\(([^)]*)\)\]\s*pub struct ConIterOfRange", txt)
     ders = [d.strip() for d in m.group(1).split(",")] if m else []
     manual = re.search(r"impl[^{;]*\bClone\s+for\s+ConIterOfRange", txt) is not None
-    return ("\n/-- the derives of `ConIterOfRange` (a derived `Clone` clones field by field) -/\n"
+    sl = strip_comments(open(os.path.join(SRC, "iter/implementors/slice.rs")).read())
+    ac = strip_comments(open(os.path.join(SRC, "iter/atomic_counter.rs")).read())
+    scl = impl_fn_names(sl, r"\bClone\s+for\s+ConIterOfSlice")
+    ccl = impl_fn_names(ac, r"\bClone\s+for\s+AtomicCounter")
+    extra = ("\n/-- the methods the hand-written `Clone for ConIterOfSlice` / `Clone for AtomicCounter` define (`clone_from` is then std's\n"
+             "default, `*self = source.clone()`) -/\ndef NewSlice.clone_methods : List String := [%s]\ndef NewCounter.clone_methods : List String := [%s]\n"
+             % (", ".join('"%s"' % n for n in scl), ", ".join('"%s"' % n for n in ccl)))
+    return extra + ("\n/-- the derives of `ConIterOfRange` (a derived `Clone` clones field by field) -/\n"
             "def Range.derives : List String := [%s]\n\n/-- whether range.rs has a hand-written `impl Clone for ConIterOfRange` -/\n"
             "def Range.manual_clone : Bool := %s\n" % (", ".join('"%s"' % d for d in ders), "true" if manual else "false"))
 
